@@ -684,7 +684,7 @@ def search(ctx, broken):
         if isinstance(d, dict) and d.get('kind') == 'resave' and 'file' in d:
             cases.append(('resave', 'c5resave %s %d %d %s' % (d['fmt'], d['comp'], d['sauce'], d['file']), (d['fmt'], d['comp'], d['sauce'], d['file'])))
     thorough = ctx.thorough or ctx.escalated
-    per = ctx.n(200, 3000)
+    per = ctx.n(200, 2000)
     seeds = {f: [] for f in FMTS}
     for fmt in FMTS:
         for pic in extreme_pics(rng, fmt, ctx.thorough):
@@ -709,7 +709,7 @@ def search(ctx, broken):
             if f: failures += f
     # re-save stability on mutated files
     mcases = []
-    nmut = ctx.n(150, 2500)
+    nmut = ctx.n(150, 1500)
     for fmt in FMTS:
         pool = seeds[fmt]
         if not pool: continue
